@@ -777,7 +777,11 @@ func runC27(c c27Case, r *ev.Rec) error {
 				firstInstErr = in.Err
 			}
 			if rng.Err == nil {
-				return ev.Failf("query %q (lookback %dms): the instant query at %d fails with %q but the range query [%d,%d] step %d succeeds", c.Expr, c.Eng.LookbackMs, ts, in.Err, c.Start, end, c.Step)
+				msg := fmt.Sprintf("query %q (lookback %dms): the instant query at %d fails with %q but the range query [%d,%d] step %d succeeds", c.Expr, c.Eng.LookbackMs, ts, in.Err, c.Start, end, c.Step)
+				if c27KnownAggParam(ast) {
+					return ev.FailSig(c27SigAggParam, "%s", msg) // the parameter is only evaluated at the range start
+				}
+				return ev.Failf("%s", msg)
 			}
 			continue
 		}
@@ -822,6 +826,9 @@ func runC27(c c27Case, r *ev.Rec) error {
 				sig = "c27-range-same-labelset-across-steps"
 			}
 			msg := fmt.Sprintf("query %q (lookback %dms): the range query [%d,%d] step %d fails with %q but no step's instant query fails that way (instant errors: %v)", c.Expr, c.Eng.LookbackMs, c.Start, end, c.Step, rng.Err, firstInstErr)
+			if sig == "" && c27KnownAggParam(ast) {
+				sig = c27SigAggParam
+			}
 			if sig != "" {
 				return ev.FailSig(sig, "%s", msg)
 			}
